@@ -167,6 +167,8 @@ def stage_pipeline(sc: Dict[str, Any], salt: int) -> Dict[str, str]:
         for name, entry in snap.items():
             if name.endswith(".zip"):
                 continue   # zip members carry real mtimes
+            # the scratch root differs between check invocations (never between the schedules of one batch)
+            entry["content"] = entry["content"].replace(P.SCRATCH_ROOT, "<SCRATCH>")
             if name.endswith(".json"):
                 data = json.loads(entry["content"])
                 data.pop("timings", None)
